@@ -69,6 +69,7 @@ class KFile:
         self.harnesses = []          # dicts
         self.contracts = []          # (target, [lines])
         self.cbmc_args = []          # group-wide: passed after --cbmc-args
+        self.no_native_replay = None  # reason: a native run cannot exhibit this file's failures (skip the native step)
         self.assumed = []            # contracts assumed (not proved) by this file's stubs -> run.assumptions
         self.footprints = []         # (fn, allowed `self.x` names): syntactic guard, violated => UNDECIDED
         self.kani_flags = []         # group-wide extra cargo-kani flags (e.g. -Z uninit-checks)
@@ -98,6 +99,8 @@ class KFile:
                 if cur is None:
                     raise Undecided(f'{path}: `//|` line outside a //@contract block')
                 cur[1].append(s[3:].strip().replace('$MOD', self.modname))
+            elif s.startswith('//@no-native-replay'):
+                self.no_native_replay = s[len('//@no-native-replay'):].strip() or 'disabled for this file'; cur = None
             elif s.startswith('//@assumption'):
                 self.assumed.append(s[len('//@assumption'):].strip()); cur = None
             elif s.startswith('//@footprint'):
@@ -426,8 +429,15 @@ def playback(crate, target_dir, h, kani_flags=(), cbmc_args=()):
     body = h['kfile'].body
     m = re.search(r'((?:#\[[^\]]*\]\s*)+)fn\s+' + h['name'] + r'\b', body)
     stubbed = bool(m and 'kani::stub' in m.group(1))
+    if h['kfile'].no_native_replay and 'kani::any' not in body:
+        info['input'] = {'values_in_order_of_kani_any': [], 'unit_test': None}
+        info['replay_output'] = 'native replay skipped: ' + h['kfile'].no_native_replay
+        return info
     try:
-        p = subprocess.run(['timeout', str(PLAYBACK_TIMEOUT_S)] + base + ['--concrete-playback=print'] + tail, cwd=crate,
+        # counterexample extraction only (no native step follows): keep it short, trace generation over the
+        # 1448-byte buffers can take minutes
+        pt = 100 if h['kfile'].no_native_replay else PLAYBACK_TIMEOUT_S
+        p = subprocess.run(['timeout', str(pt)] + base + ['--concrete-playback=print'] + tail, cwd=crate,
                            capture_output=True, text=True, env=kani_env())
     except Exception as e:
         info['replay_output'] = f'concrete playback generation failed: {e}'
@@ -443,6 +453,9 @@ def playback(crate, target_dir, h, kani_flags=(), cbmc_args=()):
     info['input'] = {'values_in_order_of_kani_any': vals, 'unit_test': test}
     # append the test to the harness module (what --concrete-playback=inplace does) and run it natively
     kf = h['kfile']
+    if kf.no_native_replay:
+        info['replay_output'] = 'native replay skipped: ' + kf.no_native_replay
+        return info
     src = os.path.join(crate, kf.file)
     text = open(src).read()
     key = f'mod {kf.modname} {{'
